@@ -1271,6 +1271,7 @@ type Env struct {
 	cur   *State
 	old   *State
 	look  func(name string) (Val, bool)
+	ambig map[string]bool // names a ghost statement must not use: they mean different things in caller and callee
 	pkg   *types.Package
 	label string
 	inOld bool
